@@ -39,7 +39,8 @@ Definition floor_ok (ws : list Z) (N : nat) (idx : list nat) : bool :=
                     let lo := (Z.of_nat N * w) / T in
                     let hi := (Z.of_nat N * w + T - 1) / T in
                     (lo <=? c) && (c <=? hi)) (seq 0 (length ws))
-  && Nat.eqb (length idx) N.
+  && Nat.eqb (length idx) N
+  && forallb (fun i => Nat.ltb i (length ws)) idx.     (* every index names an input particle *)
 
 Definition qclose (x y : Q) : bool :=
   Qle_bool (Qabs (x - y)) (1 # 20000)%Q.
